@@ -230,3 +230,67 @@ Proof.
   - intros k st Hact Hk. specialize (T self p k st Hp Hact Hk).
     destruct (ch_buf st) as [m|] eqn:Hb; [|done]. split; [|done]. by apply (g_msgs U c G k st m Hk Hb).
 Qed.
+
+(* ------------------------------------------------------------------ what a step produces is again well formed *)
+Lemma find_branch_cids l bs y Q x :
+  find_branch l bs = Some (y, Q) -> x ∈ form_cids Q -> x ∈ flat_map name_cids (brs_names bs).
+Proof.
+  induction bs as [|l' y' k r IH]; cbn; [done|]. unfold form_cids in *.
+  destruct (String.eqb l' l).
+  - intros [= <- <-] Hx. rewrite flat_map_app. rewrite !elem_of_app. auto.
+  - intros H Hx. rewrite flat_map_app. rewrite !elem_of_app. auto.
+Qed.
+
+(* leaves of the channel-set goals: the channel comes from the old process or from the message *)
+Ltac cid_leaf HUp HUm Hx :=
+  first
+  [ by (cbn in Hx; apply elem_of_nil in Hx)
+  | (apply HUm; unfold msg_cids, names_cids, name_cids in *; cbn in *;
+     revert Hx; rewrite ?elem_of_app, ?elem_of_cons, ?elem_of_nil; tauto)
+  | (apply HUp; unfold proc_cids, form_cids, names_cids in *; cbn in *;
+     revert Hx; rewrite ?flat_map_app, ?elem_of_app, ?elem_of_cons, ?elem_of_nil; tauto) ].
+
+Lemma on_message_ok (U : list nat -> Prop) self p m e :
+  proc_ok p -> msg_ok m -> (forall x, x ∈ proc_cids p -> U x) -> (forall x, x ∈ msg_cids m -> U x) ->
+  (m_rule m = RFWD -> is_fwd (pr_body0 p) = false) ->
+  on_message self p m = EOk e ->
+  exists p' cl, e = Eff (Continue p') [] [] cl [] /\ proc_ok p' /\ (forall x, x ∈ proc_cids p' -> U x) /\
+                pr_next p' = pr_next p.
+Proof.
+  intros ((n & a & Hprov & Hn) & Hlin) Hmok HUp HUm Hfwd He.
+  destruct p as [provs body next]. cbn in *. subst provs.
+  unfold on_message in He. unfold msg_ok in Hmok. cbn in He.
+  assert (forall y Q l bs, find_branch l bs = Some (y, Q) -> lin_brs bs = true -> lin_form Q = true) as Hbr
+    by (intros; by eapply lin_find_branch).
+  destruct (m_rule m) eqn:Hrule; cbn in He.
+  9:{ done. }
+  8:{ (* FWD *)
+    specialize (Hfwd eq_refl).
+    assert (match body with FFwd _ _ _ => true | _ => false end = false) as Hf by (by destruct body).
+    rewrite Hf in He. cbn in He. simplify_eq.
+    destruct Hmok as (n' & Hpv & [a' Hn']).
+    eexists _, _. split; [reflexivity|]. unfold set_provs_body. cbn. split_and!; [| |done].
+    - split; [by exists n', a'|done].
+    - intros x Hx. apply elem_of_app in Hx as [Hx|Hx].
+      + apply HUm. unfold msg_cids. rewrite !elem_of_app. auto.
+      + apply HUp. apply elem_of_app. by right. }
+  all: destruct body; cbn in He, Hlin; try discriminate.
+  all: repeat match goal with
+       | H : context [if ?b then _ else _] |- _ => destruct b eqn:?; try discriminate
+       | H : context [match find_branch ?l ?bs with _ => _ end] |- _ => destruct (find_branch l bs) as [[? ?]|] eqn:?; try discriminate
+       end.
+  all: try (apply andb_prop in Hlin as [? ?]).
+  all: simplify_eq.
+  all: try match type of Hmok with is_Some _ => destruct Hmok as [d Hd] end.
+  all: unfold no_eff, set_body, set_provs_body; cbn.
+  all: eexists _, _; (split; [reflexivity|]); split_and!; try reflexivity.
+  all: try (unfold proc_ok; cbn; split;
+            [eexists _, _; split; [reflexivity|eassumption]
+            |rewrite ?lin_subst; first [done | by eapply Hbr]]).
+  all: intros z Hx; unfold proc_cids in Hx; cbn [pr_provs pr_body0] in Hx; apply elem_of_app in Hx as [Hx|Hx];
+       [|repeat (apply form_cids_subst in Hx as [Hx|Hx])].
+  all: try (eapply find_branch_cids in Hx; [|eassumption]).
+  all: try cid_leaf HUp HUm Hx.
+  all: unfold form_cids in Hx; cbn in Hx; rewrite ?elem_of_app in Hx;
+       repeat match type of Hx with _ \/ _ => destruct Hx as [Hx|Hx] end; cid_leaf HUp HUm Hx.
+Qed.
